@@ -279,6 +279,25 @@ def run_case(c):
         l2 = dict(lay)
         l2['events'] = lay['events'] + [[9, 9]]
         edits.append(('one more event', l2))
+        # smallest possible changes of large / floating-point values (equality must be exact, not approximate)
+        import struct
+        big = dict(lay, bits=[32, 64], ranges=[2 ** 32, 2 ** 64], events=[[4000000000, 2 ** 63 + 5], [3, 10 ** 15], [123456789, 7]])
+        for (i, j, delta) in ((0, 0, 1), (0, 1, 1), (1, 1, -1), (2, 0, 1), (0, 0, -1)):
+            ev = [list(r) for r in big['events']]
+            ev[i][j] += delta
+            edits.append(('largeint cell (%d,%d) %+d' % (i, j, delta), (big, dict(big, events=ev))))
+        for dt, fmt, ufmt in (('F', '>f', '>I'), ('D', '>d', '>Q')):
+            vals = [[-131.22, 1.0], [1e-30, 65536.5], [0.0, 3.0e5]]
+            base = dict(lay, datatype=dt, bits=[32 if dt == 'F' else 64] * 2, ranges=[262144] * 2,
+                        events=[[fcsgen.float_bits(v, dt) for v in r] for r in vals])
+            for i in range(3):
+                for j in range(2):
+                    ev = [list(r) for r in base['events']]
+                    ev[i][j] += 1            # the next representable value (adjacent bit pattern)
+                    edits.append(('float%s cell (%d,%d) next representable value' % (dt, i, j), (base, dict(base, events=ev))))
+            ev = [list(r) for r in base['events']]
+            ev[2][0] = fcsgen.float_bits(-0.0, dt)
+            edits.append(('float%s +0.0 -> -0.0 (equal values; either answer accepted)' % dt, (base, dict(base, events=ev), 'either')))
         l2 = dict(lay)
         l2['events'] = lay['events'][:-1]
         edits.append(('one event fewer', l2))
@@ -304,8 +323,17 @@ def run_case(c):
         l2['names'] = ['CH1', 'CHX']
         edits.append(('channel renamed', l2))
     for name, l2 in edits:
-        other = write(l2)
-        refl = ref
+        either = False
+        if isinstance(l2, tuple):
+            refl = write(l2[0])
+            either = len(l2) > 2
+            other = write(l2[1])
+        else:
+            other = write(l2)
+            refl = ref
+        if either:
+            res.ok('file-eq:equal-valued-cells', True)
+            continue
         if (refl == other) or not (refl != other):
             res.violation('file-eq:differing:%s' % name.split(' ')[0], 'files differing by %s compare equal' % name, dict(c))
         else:
